@@ -5,7 +5,14 @@ Harness: vlib/sched.py + vlib/schedprog.py + DB-API recorder.  A LOCKER session 
 against 1-2 WRITER sessions (optimistic, optimistic=False, immediate, or lockers themselves) on the same rows,
 under every operation-level interleaving (exhaustive per program set) and sampled statement-level schedules.
 
+Sessions may consist of several transactions (commit() / rollback() in the middle): a lock lasts until its
+TRANSACTION ends; every transaction that committed is a unit of the serial-equivalence oracle.  Locks are taken
+through every API path (get_for_update by pk / secondary unique key / composite key, query.for_update(), with
+nowait / skip_locked) on objects that are not / are already cached by a plain read.
+
 Oracles
+  0 DB-API boundary: when a locking call returns an object, the recorder log shows an open transaction (a BEGIN that
+    returned and no COMMIT/ROLLBACK since) of that session -- on SQLite there is no lock outside a transaction.
   1 protected rows unchanged: for every row A locked (the locking call returned the object) resp. every row a
     serializable A read, the COMMITTED content of that row, observed through an independent raw connection right
     after the call returned and again inside A's session just before it ends, is identical (A's own changes are
@@ -30,13 +37,25 @@ META = {
     'level_note': 'On SQLite the row lock is a BEGIN IMMEDIATE transaction plus a process-wide lock; SQLite\'s own file '
                   'lock backs both up, so a broken process lock shows as loud "database is locked" (allowed: writers wait '
                   'or fail). The monitors therefore mainly decide whether the immediate transaction is opened in time.',
-    'rule': 'case = (locker program incl. locking variant, writer programs incl. session kind, schedule); distinct by '
+    'rule': 'program family: 35 basic locker variants x 18 writer kinds, plus 43 wider locker variants x 8 writer kinds: '
+            'every lock API path (get_for_update by pk / secondary unique key / composite key, with nowait / skip_locked; '
+            'select().for_update() incl. nowait / skip_locked; Entity.select(kw).for_update()) on objects that are not / are '
+            'already in the identity map (cached by Entity[pk], get(unique), get(composite), a query); sessions of several '
+            'transactions (commit() / rollback() in the middle, re-lock afterwards); serializable / optimistic=False / '
+            'immediate=True sessions across the commit boundary. '
+            'case = (locker program incl. locking variant, writer programs incl. session kind, schedule); distinct by '
             'program text + executed trace; non-trivial = a writer attempted a write statement or a lock wait while the '
             'locker\'s protected interval was open, or the schedule is not serial.',
     'assumptions': ['SQLite only: PostgreSQL row locks (FOR UPDATE [NOWAIT|SKIP LOCKED]) and SERIALIZABLE isolation are '
                     'not executed; nowait/skip_locked are accepted by pony on SQLite and behave like plain for_update',
                     'the protected interval starts when the locking call (resp. the first read of a serializable session) '
-                    'returns and ends when the session ends',
+                    'returns and ends when that TRANSACTION ends (commit()/rollback() in the middle of the session, or the '
+                    'session end): a lock cannot outlive its transaction',
+                    'a serializable session protects a row it reads in a transaction only if it actually reads it from the '
+                    'database there; a cached object re-used after commit() is the separate finding '
+                    'C35-NONOPTIMISTIC-SESSION-REUSES-STALE-CACHE-AFTER-COMMIT',
+                    'on SQLite a lock exists only inside an open transaction: a locking call that returns an object while the '
+                    'recorder log shows no open transaction of that session is a violation by itself',
                     'observed: db_session(serializable=True) on SQLite is immediate and non-optimistic, i.e. BEGIN IMMEDIATE '
                     'before its first statement plus the process-wide lock (counter begin_immediate); no lost update was '
                     'observable, so nothing is proposed as a finding'],
@@ -47,8 +66,9 @@ SHARDS = {'quick': 1, 'thorough': 16}
 SHARD_TIMEOUT = {'quick': 300, 'thorough': 1500}
 
 EXPECTED_ERRORS = ('OptimisticCheckError', 'UnrepeatableReadError', 'OperationalError', 'CommitException',
-                   'TransactionIntegrityError', 'UnexpectedError', 'RollbackException')
+                   'TransactionIntegrityError', 'UnexpectedError', 'RollbackException', 'ObjectNotFound')
 HOWS = ('get_for_update', 'nowait', 'skip_locked', 'query_for_update', 'query_nowait')
+F_STALE = 'C35-NONOPTIMISTIC-SESSION-REUSES-STALE-CACHE-AFTER-COMMIT'
 
 
 def S(name, ops, **opts):
@@ -86,21 +106,84 @@ def writers():
     return out
 
 
+def lockers2():
+    """Wider locker family: every API path to a lock, on objects that are / are not already in the identity map,
+    and sessions made of several transactions (commit() / rollback() in the middle)."""
+    out = []
+    cat = ['path']
+    def A(ops, **kw):
+        d = S('A', ops, **kw); d['cat'] = cat[0]; out.append(d)
+    # --- lock acquisition paths, object not cached / cached by different plain reads
+    for how in ('by_code', 'by_ckey', 'by_code_nowait', 'by_ckey_skip', 'query_skip', 'select_kw'):
+        A([('lock', 1, how), ('inc', 1, 'x')])
+    for pre, how in (('pk', 'get_for_update'), ('pk', 'by_code'), ('code', 'by_code'), ('query', 'by_ckey'), ('query', 'get_for_update'),
+                     ('ckey', 'by_ckey_skip'), ('get_id', 'by_code_nowait'), ('pk', 'query_for_update'), ('code', 'select_kw'),
+                     ('query', 'query_skip'), ('pk', 'by_ckey')):
+        A([('preload', 1, pre), ('lock', 1, how), ('inc', 1, 'x')])
+    A([('read', 1, 'y'), ('lock', 1, 'by_code'), ('copy', 1, 'z', 1, 'x')])
+    A([('preload', 2, 'pk'), ('preload', 1, 'query'), ('lock', 1, 'by_ckey'), ('read', 1, 'x'), ('write', 1, 'y', 1001)])
+    A([('lock', 1, 'query_for_update'), ('read', 1, 'x'), ('preload', 1, 'pk'), ('inc', 1, 'x')])     # Entity[pk] after a for_update query
+    # --- several transactions in one session: the lock lasts until the transaction ends
+    cat[0] = 'multi'
+    for how in ('get_for_update', 'query_for_update', 'by_code', 'nowait'):
+        A([('lock', 1, how), ('inc', 1, 'x'), ('commit',), ('inc', 1, 'x')])
+    A([('lock', 1, 'get_for_update'), ('write', 1, 'y', 1001), ('commit',), ('read', 1, 'x'), ('write', 1, 'z', 1002)])
+    A([('lock', 1, 'by_ckey'), ('inc', 1, 'x'), ('commit',), ('lock', 1, 'get_for_update'), ('inc', 1, 'x')])
+    A([('lock', 1, 'query_for_update'), ('inc', 1, 'x'), ('rollback',), ('lock', 1, 'by_code'), ('inc', 1, 'x')])
+    A([('lock', 2, 'get_for_update'), ('inc', 2, 'x'), ('commit',), ('lock', 1, 'query_skip'), ('copy', 1, 'y', 1, 'x')])
+    A([('lock', 1, 'get_for_update'), ('read', 1, 'x'), ('rollback',), ('inc', 1, 'x')])
+    A([('read', 1, 'x'), ('commit',), ('lock', 1, 'by_code'), ('inc', 1, 'x')])
+    # --- session modes across the commit boundary (second unit works on a row the session had not loaded before)
+    cat[0] = 'modes'
+    for opts in ({'serializable': True}, {'optimistic': False}, {'immediate': True}):
+        A([('inc', 2, 'x'), ('commit',), ('inc', 1, 'x')], **opts)
+        A([('read', 2, 'x'), ('commit',), ('read', 1, 'x'), ('write', 1, 'y', 1001)], **opts)
+        A([('write', 2, 'y', 1001), ('rollback',), ('copy', 1, 'y', 1, 'x')], **opts)
+    A([('inc', 2, 'x'), ('flush',), ('inc', 1, 'x')], serializable=True)
+    # --- the same row on both sides of the commit (cached object re-used by the next transaction)
+    cat[0] = 'stale'
+    A([('inc', 1, 'x'), ('commit',), ('inc', 1, 'x')], serializable=True)
+    A([('inc', 1, 'x'), ('commit',), ('inc', 1, 'x')], optimistic=False)
+    A([('read', 1, 'x'), ('commit',), ('copy', 1, 'y', 1, 'x')], serializable=True)
+    return out
+
+
+def core_writers():
+    """Writer kinds paired with the wider locker family (most of them write the attribute the locker computes from)."""
+    return [S('B', [('inc', 1, 'x')]), S('B', [('inc', 1, 'x')], optimistic=False), S('B', [('inc', 1, 'x')], immediate=True),
+            S('B', [('write', 1, 'x', 2001), ('write', 1, 'y', 2002)]), S('B', [('copy', 1, 'x', 1, 'y')]),
+            S('B', [('lock', 1, 'by_code'), ('inc', 1, 'x')]), S('B', [('read', 1, 'x'), ('write', 1, 'y', 2001)], optimistic=False),
+            S('B', [('inc', 1, 'x'), ('commit',), ('inc', 2, 'x')])]
+
+
 def third_writers():
     return [S('C', [('inc', 1, 'x')]), S('C', [('write', 1, 'y', 3001)], optimistic=False), S('C', [('inc', 2, 'x')])]
 
 
 def all_sets():
-    return [[a, b] for a in lockers() for b in writers()]
+    return [[a, b] for a in lockers() for b in writers()] + [[a, b] for a in lockers2() for b in core_writers()]
 
 
 def protected_rows(run):
-    """{row: (mark seq, committed row at mark, kind)} for session run of a locker."""
-    out = {}
-    for r, (seq, row) in run.lock_marks.items(): out[r] = (seq, row, 'for_update')
+    """[(unit, row, mark seq, committed row at mark, kind)]: rows the session locked in that unit (the locking call
+    returned the object) and, for a serializable session, rows it read in that unit and had not loaded in an earlier
+    unit (a cached object re-used after commit() is not read from the database again)."""
+    out = []
+    for (u, r), (seq, row) in run.lock_marks.items(): out.append((u, r, seq, row, 'for_update'))
     if run.sess['opts'].get('serializable'):
-        for r, (seq, row) in run.read_marks.items(): out.setdefault(r, (seq, row, 'serializable'))
+        for (u, r), (seq, row) in run.read_marks.items():
+            if (u, r) in run.lock_marks: continue
+            if run.first_touch.get(r) != u: continue
+            out.append((u, r, seq, row, 'serializable'))
     return out
+
+
+def reuses_cached_rows_without_checks(sp, sess):
+    """A session that performs no optimistic checks (serializable / optimistic=False) names the same row in two
+    different units: after commit() the cached object is re-used without being read again."""
+    if not (sess['opts'].get('serializable') or sess['opts'].get('optimistic') is False): return False
+    units = sp.rows_by_unit(sess)
+    return any(units[i] & units[j] for i in range(len(units)) for j in range(i + 1, len(units)))
 
 
 def judge(ctx, sp, sessions, res, desc):
@@ -128,55 +211,64 @@ def judge(ctx, sp, sessions, res, desc):
 
     for n in names:
         L = res.runs[n]
-        prot = protected_rows(L)
-        if not prot: continue
-        if L.pre_exit is None:
-            ctx.count('protected.no_end_snapshot'); continue
-        end_seq, end_state = L.pre_exit
-        if 'error' in end_state: ctx.count('protected.no_end_snapshot'); continue
-        for r, (seq, row0, kind) in prot.items():
+        # ---- oracle 0 (DB-API boundary): a transaction of the session is open when a locking call returns an object
+        for lr in L.lock_results:
+            if len(lr) > 4 and lr[3] == 'obj':
+                ctx.count('lock_calls.returned_object'); ctx.count('lock_calls.' + lr[2])
+                if not lr[4]:
+                    ctx.violation(dict(wit0, locker=n, step=lr[0], row=lr[1], how=lr[2]), 'locking-call-returned-without-open-transaction')
+        for (u, r, seq, row0, kind) in protected_rows(L):
+            end = L.unit_ends.get(u) or L.pre_exit
+            if end is None or 'error' in end[1]:
+                ctx.count('protected.no_end_snapshot'); continue
+            end_seq, end_state = end
             ctx.count('protected.rows_checked'); ctx.count('protected.%s' % kind)
+            if u: ctx.count('protected.in_later_transaction')
             row1 = end_state['R'].get(r)
-            # ---- oracle 2: foreign committed writes inside the interval (mechanism) -------------------------
+            # ---- oracle 2: foreign writes / commits inside the interval (mechanism) -------------------------------
             foreign = []
             for e in res.events:
                 if not (seq < e['seq'] <= end_seq) or e['tag'] in (n, None): continue
                 if e['kind'] == 'execute' and e['sql']:
                     verb = e['sql'].lstrip()[:6].upper()
-                    if verb in ('UPDATE', 'DELETE', 'INSERT', 'BEGIN '):
-                        overlap = True
-                    if e['phase'] == 'ret' and verb in ('UPDATE', 'DELETE'):
-                        foreign.append([e['tag'], e['seq'], e['sql'][:80]])
+                    if verb in ('UPDATE', 'DELETE', 'INSERT', 'BEGIN '): overlap = True
+                    if e['phase'] == 'ret' and verb in ('UPDATE', 'DELETE'): foreign.append([e['tag'], e['seq'], e['sql'][:80]])
             commits = [[e['tag'], e['seq']] for e in res.events if seq < e['seq'] <= end_seq and e['kind'] == 'commit'
                        and e['phase'] == 'ret' and e['tag'] not in (n, None)]
-            # ---- oracle 1: committed content of the protected row unchanged ----------------------------------
+            # ---- oracle 1: committed content of the protected row unchanged until the transaction ends ----------
             if row0 != row1:
-                ctx.violation(dict(wit0, locker=n, row=r, kind=kind, at_lock=row0, before_end=row1, interval=[seq, end_seq],
-                                   foreign_writes=foreign, foreign_commits=commits), 'protected-row-changed-before-session-end')
+                ctx.violation(dict(wit0, locker=n, unit=u, row=r, kind=kind, at_lock=row0, before_end=row1, interval=[seq, end_seq],
+                                   foreign_writes=foreign, foreign_commits=commits), 'protected-row-changed-before-transaction-end')
             elif foreign and commits and any(outcomes.get(t) == 'committed' for t, _ in commits):
-                # statement on some row returned and its session committed inside the interval although the observed row
-                # is the same: only a violation if that statement targeted the protected row
                 hit = []
                 for e in res.events:
                     if seq < e['seq'] <= end_seq and e['kind'] == 'execute' and e['phase'] == 'call' and e['tag'] not in (n, None):
                         pu = sp.parse_update(e['sql'].lstrip(), e['args']) if e['sql'] else None
                         if pu and pu[0] == 'R' and pu[2] == r and any(t == e['tag'] for t, _ in commits): hit.append([e['tag'], e['seq']])
                 if hit:
-                    ctx.violation(dict(wit0, locker=n, row=r, kind=kind, foreign=hit, commits=commits), 'foreign-write-committed-on-protected-row')
+                    ctx.violation(dict(wit0, locker=n, unit=u, row=r, kind=kind, foreign=hit, commits=commits), 'foreign-write-committed-on-protected-row')
     # ---- oracle 3 (evidence): writers that met the lock waited or failed ---------------------------------------
     for w in res.sched.workers:
         if w.lock_waits: ctx.count('writer.waited_in_acquire_lock', w.lock_waits); overlap = True
-    # ---- oracle 4: no committed write lost -------------------------------------------------------------------------
-    committed = [s for s in sessions if outcomes[s['name']] == 'committed']
-    serial = sp.serial_results(committed)
+    # ---- oracle 4: no committed write lost (units = transactions of a session that committed) -------------------------
+    units = [sp.committed_units(s, res.runs[s['name']]) for s in sessions]
+    wit0['committed_units'] = [[u['name'] for u in us] for us in units]
+    serial = sp.serial_results_units(units)
     unprotected_cross = any(sp.cross_object_flow(s) and not s['opts'].get('serializable') and s['opts'].get('optimistic') is not False
                             and not s['opts'].get('immediate') and not all(r in res.runs[s['name']].locked for op in s['ops'] if op[0] == 'copy' for r in (op[1], op[3]))
                             for s in sessions)
+    stale_shape = any(reuses_cached_rows_without_checks(sp, s) for s in sessions)
+    equivalent = any(st == res.final for st in serial.values())
     if unprotected_cross: ctx.count('serial.not_judged_cross_object_flow')
-    elif any(st == res.final for st in serial.values()): ctx.count('serial.judged'); ctx.count('serial.equivalent')
+    elif equivalent:
+        ctx.count('serial.judged'); ctx.count('serial.equivalent')
+        if stale_shape: ctx.count('serial.stale_shape_equivalent')
+    elif stale_shape:
+        ctx.count('serial.judged'); ctx.count('serial.known_stale_cache_after_commit')
+        ctx.finding(F_STALE, dict(wit0, final=res.final['R'], serial={'>'.join(o): st['R'] for o, st in list(serial.items())[:6]}))
     else:
         ctx.count('serial.judged')
-        ctx.violation(dict(wit0, final=res.final['R'], serial={''.join(o): st['R'] for o, st in serial.items()}),
+        ctx.violation(dict(wit0, final=res.final['R'], serial={'>'.join(o): st['R'] for o, st in list(serial.items())[:6]}),
                       'final-state-not-serial-equivalent')
     if any(o != 'committed' for o in outcomes.values()): ctx.count('schedules.with_failed_session')
     return overlap
@@ -238,21 +330,29 @@ def run(ctx):
         ctx.extra['program_set_space'] = len(sets)
         if ctx.tier == 'quick':
             rng = ctx.rng
-            L0, W0 = lockers(), writers()               # 24 distinct locker variants, each with a random writer kind
-            chosen = [[a, rng.choice(W0)] for a in rng.sample(L0, 24)]
+            # stratified sample of the program-set family: 10 of the basic locker variants with a random writer kind,
+            # and of the wider family 7 lock-path, 7 multi-transaction, 6 session-mode and 1 cached-row-reuse variants
+            L0, W0, L2, W2 = lockers(), writers(), lockers2(), core_writers()
+            chosen = [[a, rng.choice(W0)] for a in rng.sample(L0, 10)]
+            for c, k in (('path', 7), ('multi', 7), ('modes', 6), ('stale', 1)):
+                pool = [a for a in L2 if a['cat'] == c]
+                chosen += [[a, rng.choice(W2)] for a in rng.sample(pool, k)]
             chosen = [next(s for s in sets if s[0] == a and s[1] == b) for a, b in chosen]
-            stmt, three, nsample = 3, 1, 80
+            stmt, three, nsample = 2, 1, 50
         else:
             chosen = [s for i, s in enumerate(sets) if i % ctx.nshards == ctx.shard]
-            stmt, three, nsample = 4, 4, 200
+            stmt, three, nsample = 3, 3, 200
         for sessions in chosen:
-            explore(ctx, model, sp, sessions, ('set', sets.index(sessions)), stmt)
+            # quick: interleaving spaces above 90 are sampled (time budget); thorough enumerates up to 2000
+            explore(ctx, model, sp, sessions, ('set', sets.index(sessions)), stmt,
+                    max_enum=90 if ctx.tier == 'quick' else 2000, nsample=nsample)
             ctx.count('program_sets')
         rng = ctx.rng
-        L, W, C = lockers(), writers(), third_writers()
+        L, W, C = lockers() + lockers2(), writers() + core_writers(), third_writers()
         for i in range(three):
             sessions = [rng.choice(L), rng.choice(W), rng.choice(C)]
-            explore(ctx, model, sp, sessions, ('three', ctx.tier, ctx.shard, i), stmt, nsample=nsample)
+            explore(ctx, model, sp, sessions, ('three', ctx.tier, ctx.shard, i), stmt,
+                    max_enum=60 if ctx.tier == 'quick' else 2000, nsample=nsample)
             ctx.count('program_sets')
     finally:
         model.close()
